@@ -217,7 +217,7 @@ list with a body in some direction or a following response; distinct by (decoded
     enums: &[],
     randoms: &[RandomDef {
         name: "exchange_lists",
-        cases: |t: Tier| t.pick(150_000, 24_000_000),
+        cases: |t: Tier| t.pick(400_000, 24_000_000),
         tape_len: 900,
         exec: None,
     }],
